@@ -31,5 +31,11 @@ def run(S):
     if not found:
         found += markup.explore_markup(S, K)
     markup.report(S, 'C08', found)
+    # whole prose documents through the real printer (nested markup: list items, headings, strong / emph, content blocks), blanks symbolic
+    from . import deep
+    fd, cov = deep.explore(S, deep.PROSE + deep.DOCS, want=('C08',))
+    deep.report(S, 'C08', fd)
+    if cov['decided'] < cov['docs']:
+        S.inconclusive.append('deep prose documents: %r' % (cov['gaps'][:3],))
     S.assumptions += markup.ASSUMPTIONS
     return S.finish(level='other', explanation=EXPLANATION, trusted=['mirsym encoder', 'typst-syntax kind tables', 'pretty Doc algebra contracts'])
